@@ -118,7 +118,7 @@ impl ForInIterator {
                     }
                 }
             }
-            let proto = object.prototype().clone();
+            let proto = object.__get_prototype_of__(context)?;
             match proto {
                 Some(o) => {
                     object = o;
